@@ -11,5 +11,5 @@ def run(ck):
     rng = ck.rng
     n = 1500 if ck.thorough else 150
     cases = [G.rand_case(rng, VARIANT) for _ in range(n)]
-    ck.stream("random-schedules", cases, "C03_lts", "C03_lts", None, sig=lambda c, e, o: "lts")
+    ck.stream("random-schedules", cases, "C03_lts", "C03_lts", "C03_ok", sig=lambda c, e, o: "lts")
     return ck.finish(rule="random schedules")
